@@ -664,6 +664,10 @@ def _root_local(f, op):
             return None
         n = pl["local"]
         ds = f.defs().get(n, [])
+        if len(ds) == 1 and ds[0][0] == "call" and not ds[0][4]["proj"] and ds[0][1]["args"] and (
+                callee_of(ds[0][1]).endswith("mem::take") or callee_of(ds[0][1]).endswith("mem::replace")):
+            pl = op_place(ds[0][1]["args"][0])          # mem::take(&mut x) hands out the value x held
+            continue
         if len(ds) != 1 or ds[0][0] != "stmt" or ds[0][4]["proj"]:
             return n
         rv = ds[0][1]
